@@ -317,13 +317,14 @@ NextExpect(r, ev) ==
 
 Min2(n) == IF n > 2 THEN 2 ELSE n
 
-Prev0 == [none |-> TRUE, enc |-> FALSE, authed |-> FALSE, session |-> FALSE, sm |-> FALSE, resumed |-> FALSE, redirected |-> FALSE]
+Prev0 == [none |-> TRUE, enc |-> FALSE, authed |-> FALSE, session |-> FALSE, sm |-> FALSE, resumed |-> FALSE, redirected |-> FALSE,
+          lst |-> "Core"]     \* lst: the negotiation manager that was installed when the connection ended
 
 Apply(r, ev) ==
     /\ c' = r.c
     /\ prev' = IF c.sock = "On" /\ (r.c.sock = "Off" \/ r.c.conn # c.conn)     \* this step ended a connection
                THEN [none |-> FALSE, enc |-> c.enc, authed |-> c.authed, session |-> c.session, sm |-> c.smEnabled,
-                     resumed |-> c.smResumed, redirected |-> (r.c.conn # c.conn)]
+                     resumed |-> c.smResumed, redirected |-> (r.c.conn # c.conn), lst |-> c.lst]
                ELSE prev
     /\ expect' = NextExpect(r, ev)
     /\ conf' = (conf /\ (ev.k \in {"Connect", "Cut", "Disconnect", "SendIq"} \/ Conforming(c, expect, ev)))
